@@ -414,6 +414,52 @@ func c12(r *Report) {
 	})
 
 	r.Guard("C12.R5", "a filter applies its modifier when the condition holds and the else-branch otherwise", func() {
+		// each of the four branch setters of filter.Filter writes one slot, its own: the
+		// same slot on all its paths (nil argument or not), and no two setters share one
+		if ft := w.Named("filter", "Filter"); ft != nil {
+			target := func(st *ssa.Store) string {
+				switch a := st.Addr.(type) {
+				case *ssa.FieldAddr:
+					return fieldObj(a).Name()
+				case *ssa.IndexAddr:
+					if fa, ok := a.X.(*ssa.FieldAddr); ok {
+						if k, isK := constInt(a.Index); isK {
+							return fmt.Sprintf("%s[%d]", fieldObj(fa).Name(), k)
+						}
+						return fieldObj(fa).Name() + "[?]"
+					}
+				}
+				return ""
+			}
+			owner := map[string]string{}
+			for _, mn := range []string{"RequestWhenTrue", "RequestWhenFalse", "ResponseWhenTrue", "ResponseWhenFalse"} {
+				fn := w.method(ft, mn)
+				if fn == nil || fn.Blocks == nil {
+					r.Undecided("(*M/filter.Filter)."+mn, "UNRESOLVED")
+					continue
+				}
+				r.Touch(fn)
+				slots := map[string]bool{}
+				for _, in := range instrs(fn) {
+					if st, ok := in.(*ssa.Store); ok {
+						if t := target(st); t != "" {
+							slots[t] = true
+						}
+					}
+				}
+				okOne := len(slots) == 1
+				clash := ""
+				for t := range slots {
+					if o, taken := owner[t]; taken {
+						clash = o
+					} else {
+						owner[t] = mn
+					}
+				}
+				r.Decide("sibling", "(*M/filter.Filter)."+mn+" writes exactly one slot, which no other branch setter writes", okOne && clash == "", fmt.Sprintf("slot %v", keys(slots)), fmt.Sprintf("the setter writes %v (shared with %q): configuring one branch overwrites another branch's modifier, which then never runs", keys(slots), clash), fn.Pos())
+			}
+		}
+
 		filt := w.Named("filter", "Filter")
 		for _, side := range []struct{ mod, match, tSetter, fSetter string }{
 			{"ModifyRequest", "MatchRequest", "RequestWhenTrue", "RequestWhenFalse"},
